@@ -316,6 +316,9 @@ func corpusC15(r *CRecord, stubErrors bool) []problem {
 		if s.MiddlewareOps > 1 {
 			add("handler invoked at most once", fmt.Sprintf("delivery %d: middleware ran %d times", i, s.MiddlewareOps))
 		}
+		if s.DecodeErrBodyForeign || s.DecodeErrBodyChanged {
+			add("the error handler is shown the rejected body of this request, and it stays what it is", fmt.Sprintf("delivery %d: not this request's: %v, changed while held: %v", i, s.DecodeErrBodyForeign, s.DecodeErrBodyChanged))
+		}
 		optionsPreflight := k == "method" && r.Call.Fault.Arg == "OPTIONS" && s.Status == 204 // ogen answers OPTIONS on a known path itself (Allow / CORS headers)
 		if s.MiddlewareOps == 0 && s.Explicit && !ogenStatuses[s.Status] && !optionsPreflight && !stubErrors {
 			add("a request that does not reach the handler is answered 404/405/401/400/415", fmt.Sprintf("delivery %d: status %d without reaching the handler", i, s.Status))
@@ -353,6 +356,8 @@ func corpusC19(alone, conc *CRecord) []problem {
 	}
 	if (a == nil) != (c == nil) {
 		add("outcome equals the outcome when run alone", "delivered in one run only")
+	} else if a != nil && (c.DecodeErrBodyForeign || c.DecodeErrBodyChanged || a.DecodeErrBody != c.DecodeErrBody) {
+		add("outcome equals the outcome when run alone: the rejected body the error handler is shown", fmt.Sprintf("digest %q (not this request's: %v, changed while held: %v), alone %q", c.DecodeErrBody, c.DecodeErrBodyForeign, c.DecodeErrBodyChanged, a.DecodeErrBody))
 	} else if a != nil && (a.Status != c.Status || a.MiddlewareOps != c.MiddlewareOps || a.MiddlewareSaw != c.MiddlewareSaw) {
 		add("outcome equals the outcome when run alone: server side", fmt.Sprintf("status %d, handler stage %d (%s); alone: status %d, handler stage %d (%s)", c.Status, c.MiddlewareOps, c.MiddlewareSaw, a.Status, a.MiddlewareOps, a.MiddlewareSaw))
 	}
